@@ -8,5 +8,6 @@ INVARIANT RoutesAgree
 INVARIANT ExactlyOneOutcome
 INVARIANT MergeLaw
 INVARIANT PairKeyed
+INVARIANT DistinctOps
 INVARIANT Export
 CHECK_DEADLOCK FALSE
